@@ -146,7 +146,7 @@ def run_unit(unit, variant, multiple_errors=20, extra_args=(), rlimit=None, inli
         # function of one of the unit's source files, inline its body at the call sites (rule R20) and try once more
         names = set()
         for d in diags:
-            m = re.search(r"no method named `(\w+)` found|cannot find function `(\w+)` in this scope|no function or associated item named `(\w+)` found", d.get("message", ""))
+            m = re.search(r"no method named `(\w+)` found|cannot find function `(\w+)` in this scope|no (?:function or associated item|associated function or constant) named `(\w+)` found", d.get("message", ""))
             if d.get("level") == "error" and m:
                 names.add(m.group(1) or m.group(2) or m.group(3))
         helpers = {}
